@@ -1,4 +1,4 @@
-/* F72: lyd_dup_single_to_ctx() of a top-level node defined inside a choice fails with LY_ENOTFOUND */
+/* F162: lyd_dup_single_to_ctx() of a top-level node defined inside a choice fails with LY_ENOTFOUND */
 #include <stdio.h>
 #include "libyang.h"
 static const char *SCH = "module pp { namespace urn:pp; prefix p; yang-version 1.1; choice ch { case a { leaf f { type string; } } } }";
